@@ -71,6 +71,11 @@ theorem generated_drain_status_update_eq_model (enq : Except MessagingErr Unit) 
     decide_true, Bool.true_and]
   by_cases h : status < 5 <;> simp [h]
 
+/-- the status test at the head of `send_message_unchecked` (pc `sStatus`) -/
+theorem generated_send_status_check_eq_model (enq : Except MessagingErr Unit) (status : ActorStatus) :
+    ActorProperties.send_rejects_status enq status = decide (status.toNat ≥ Admission.stDraining) := by
+  cases status <;> rfl
+
 theorem generated_status_discriminants :
     (ActorStatus.toNat .Draining, ActorStatus.toNat .Stopping, ActorStatus.toNat .Stopped)
       = (Admission.stDraining, Admission.stStopping, Admission.stStopped) := by decide
